@@ -71,6 +71,21 @@ CHECKS["C19"] = dict(
          "(int, real, string), 3 initial rows, 4 single rows + 2 batches, histories <= 3 exhaustive / 7 sampled.",
     design_ref="DESIGN.md section 5 C19")
 
+CHECKS["C13"] = dict(
+    technique="TLA+ model of the framing reader (Wire.tla) model-checked by TLC over every fragmentation; TLC-generated "
+              "fragmentations fed to the real StreamReader/stream_recv_msg and judged by TLC (WireTrace.tla); TLC-generated "
+              "remote-operation histories (Remote.tla) executed against a live loopback server and judged by TLC against "
+              "the shared-environment spec IpcAbs.tla (RemoteTrace.tla)",
+    text="(i) every way of cutting the real byte stream of 1-3 frames into <= 3 reads, ending at every byte-boundary class, is "
+         "explored on the model and executed on the real reader: delivered = the frames, intact, one by one, in order; "
+         "(ii) histories of f(text), f(:fn,args), proxies and remote dictionary get/set over a transportable universe "
+         "(numbers, strings, symbols, characters, nested lists, dictionaries, :undefined) run against a live server; "
+         "client-side results must be those of one shared server environment; :undefined must still test as undefined.",
+    note="Trusted: TLC, asyncio.StreamReader, the canonicalisation of results. pickle fidelity is observed, not modelled. "
+         "A server-side failing command legitimately tears the connection down: the rest of such a history is not judged. "
+         "Calls that do not return are C14's subject (counted here, not judged).",
+    design_ref="DESIGN.md section 5 C13")
+
 NOT_YET = {}
 
 
